@@ -10,6 +10,8 @@ NOTE = ("Trusted base: Lean 4.33 kernel; axioms limited to propext/Classical.cho
         "stack and wall-clock are modelled or out of the model (DESIGN section 8).")
 
 CLAIMS = {
+ "C13": ("proof", "Machine-checked (Lean 4): with the balanced visitor every rule of a plan runs on the same callback trace, so validate(plan) is the in-order concatenation of the single-rule results (validateGrouped_eq_singles, validate_eq_flatMap_single, validate_append); every error of every rule carries that rule's code (codes, for all 24 rules and any trace); the default plan and the error_code literals are regenerated from the Rust sources on every run and proved to contain each of the 24 rules exactly once / be the identity (Gen/*.lean, by decide). On the implementation the union property is checked directly for the default plan and random plans (sub-sequences, repetitions, permutations), as are codes, non-empty messages, locations being node positions and the exact JSON shape; the model is compared per rule on error locations.", "6 C13", "Lean theorems (algebraic law via stack balance; code invariant over the event fold) + generated tables + differential run"),
+ "C12": ("proof", "PARTIAL proof: the model's validate is a function by construction; proved are the facts that make the real code behave like it - every rule hands the shared context back unchanged and sees the trace of a fresh context whatever ran before (context_restored, rule_sees_same_trace), and the generated inventory of process-wide/interior-mutable state is exactly the two immutable lazy_static defaults (shared_state_inventory, rfl against a file regenerated from /repo/src). Thread interleavings, hasher state and the second parser backend are NOT expressible in the model: they are explored by the run (repeated, interleaved, 16-thread and fork-backend results, each compared with one model prediction including messages).", "6 C12", "Lean invariants + generated state inventory; exploration for threads/backends (labelled partial)"),
  "C18": ("proof", "Machine-checked (Lean 4): is_subtype decides the inductive spec relation Subtype (hence reflexive; transitive on well-formed schemas), Value::compare is tree equality, variables_in_use = variable leaves, is_required = non-null without default, lookups return the definition of that name iff one exists (and type_map agrees under unique names), roots resolve to the schema definition's entries or the default names, possible_types = implementing/member objects, do_types_overlap = same type or intersecting possible sets, symmetric (Thm/C18.lean, 16 obligations). Tied to the code by exhaustive per-schema answer matrices of the real helpers compared with the model's, plus direct checks of reflexivity/transitivity/symmetry/tree-equality on the implementation's own answers.", "6 C18", "Lean theorems (decision procedures = inductive spec relations) + exhaustive differential matrices"),
  "C15": ("proof", "Machine-checked (Lean 4): for every schema, document and start context the model visitor's callback sequence equals the schema-independent pre/post-order traversal, is well nested with matching payloads, and child lists are visited in list order (Thm/C15.lean). The model is tied to the real visitor by a per-callback differential run (recording OperationVisitor vs compiled Lean driver) on generated documents over all pool schemas incl. one that knows none of the names.", "6 C15", "Lean theorem (refinement to traversal) + differential correspondence"),
  "C16": ("proof", "Machine-checked (Lean 4): the six-stack machine of the visitor is lexical scoping - from any start context it makes exactly the callbacks with exactly the context answers and stack depths of the environment-passing walk of Spec/Walk.lean, and returns the stacks it was given (Thm/C16.lean: snapshots_eq_walk, stacks_balanced, root resolution = specRoot). Tied to the code by comparing all six accessors and the (cfg-hooked) stack depths inside every callback and after the walk.", "6 C16", "Lean theorem (stack machine = lexical type environment) + differential correspondence"),
